@@ -66,6 +66,11 @@ def r1_validated_constructor(ctx):
             pl = op_place(t['args'][0])
             sl, locs = backward_slice(v, pl['l'], defs)
             calls = [c for c, _, _ in slice_calls(sl)]
+            # dropping ONE trailing separator (`strip_suffix('.')`, falling back to the input) is the same as dropping the one empty trailing
+            # label; anything that can drop or rewrite more (trim*, replace, to_lowercase, ..) is not
+            ONE_DOT = {'core::str::{impl str}::strip_suffix', 'core::option::Option::unwrap_or', 'core::option::Option::unwrap_or_else',
+                       'core::option::Option::map_or', 'core::option::Option::unwrap_or_default'}
+            calls = [c for c in calls if c not in ONE_DOT]
             ok = 1 in locs and not calls
             ctx.ob('C20.R1', 'labels-of-unmodified-input', ok, v.loc(bb, t),
                    'validate() splits its own parameter (derives from _1: %s) with no call in between: %s' % (1 in locs, calls or 'none'))
